@@ -91,6 +91,33 @@ def reach_under(an, body, vcanon, v):
     return seen
 
 
+def gate_dominates_rule(ctx, prog, an, rid, versions=(9, 10)):
+    """Every call of the given version parsers is reachable only through the true edge of the single
+    `allowed_versions.contains(&version)` gate of its dispatcher (shared: C12 R12.1, C06 R6.10)."""
+    parse_bodies = reach_bodies(prog, PARSE_ROOTS)
+    disp = find_dispatchers(prog, parse_bodies)
+    if not ctx.anchor(rid, "dispatcher", disp):
+        return
+    want = set(VERSION_PARSERS[v] for v in versions)
+    n = 0
+    for path, (body0, sites0) in sorted(disp.items()):
+        body = role_body(prog, path)
+        sites = [(blk, c) for (blk, t, c) in body.calls() if c is not None and c.npath in want]
+        if not sites:
+            continue
+        gates = [g for g in guards_by_call(an, body, CONTAINS) if g[1][3] and is_allowed_versions(g[1][3][0])]
+        if len(gates) != 1:
+            ctx.ob(rid, path, "single-gate", False, "expected exactly one `allowed_versions.contains(..)` branch in %s, found %d" % (path, len(gates)), site=site(body.span))
+            continue
+        cb, cexpr, sw, tt, ff = gates[0]
+        for blk, c in sites:
+            n += 1
+            ctx.ob(rid, path, "behind-the-gate:%s" % c.npath.rsplit("::", 2)[-2], body.edge_dominates((sw, tt), blk),
+                   "the call of %s at %s %s" % (c.npath, body.line(blk), "is reachable only through the true edge of the allowed-versions gate at %s" % body.line(cb)
+                                               if body.edge_dominates((sw, tt), blk) else "can be reached without passing the allowed-versions gate: a packet of a disallowed version would be decoded and teach the caches"), site=body.line(blk))
+    ctx.floor(rid, "crate", "calls of cache-writing version parsers", n, len(versions))
+
+
 def run(ctx, env):
     prog = env.prog("default")
     an = An(prog)
